@@ -44,8 +44,8 @@ CHECKS.update({
  "C09": dict(level="exploration", design="DESIGN.md 3/C09", technique="TLA+ outcome function (Total.tla) evaluated by TLC over the argument grid; every call executed on the real code under recover + watchdog",
    note="Trusted: the preconditions transcribed in spec/TensorOps.tla (Pre), Components.tla (CompPre) and Total.tla from the statement and the validators' documented messages; arguments exhaustive within the stated grid (full product up to length 2, one position varied above), not beyond.",
    text="TLC evaluates the outcome function of the specification (rejected, or accepted with a shape) for ~20k calls covering every public entry point with integers in [-2,6], ranks 0..5, nil tensors / slices / configs, rectangular and ragged nested data of depth 0..4, mismatched shapes and invalid configurations; the harness performs each call on the real library under recover with a watchdog and requires no panic, no hang, an error and no result exactly when the precondition is violated, otherwise a fully readable result of the specified shape; in addition seeded random histories of calls that ignore the provisos of C08 must return without panicking."),
- "C11": dict(level="model_checking", design="DESIGN.md 3/C11", technique="TLA+ protocol machine (Train.tla) model-checked and every transition replayed on real layers / loss / SGD; symbolic one-step maps from TLC checked along real multi-step trajectories", note=MC_NOTE,
-   text="TLC explores the training-protocol machine (forward, back-propagate, Update per parameter, Reset per parameter, every way of omitting updates and resets) with exact rational weights for the piece-wise rational models and checks Descent, GradIsCurrent, StaleIsAnError, NoLeak; every transition is replayed on a real FC layer, activation, MSE and SGD comparing weights, context state, gradients and ok/error. For every model FC -> activation -> loss TLC emits the symbolic gradient of the composed definitions; the harness runs real multi-step training and checks w_{k+1} = w_k - lr*g(w_k) after every step." + KF),
+ "C11": dict(level="model_checking", design="DESIGN.md 3/C11", technique="TLA+ protocol machine (Train.tla) model-checked and every transition replayed on real layers / loss / SGD; symbolic one-step maps from TLC checked along real multi-step trajectories; recorded protocols validated by TLC against the refined protocol machine (trace validation)", note=MC_NOTE,
+   text="TLC explores the training-protocol machine (forward, back-propagate, Update per parameter, Reset per parameter, every way of omitting updates and resets) with exact rational weights for the piece-wise rational models and checks Descent, GradIsCurrent, StaleIsAnError, NoLeak; every transition is replayed on a real FC layer, activation, MSE and SGD comparing weights, context state, gradients and ok/error. For every model FC -> activation -> loss TLC emits the symbolic gradient of the composed definitions; the harness runs real multi-step training and checks w_{k+1} = w_k - lr*g(w_k) after every step. In the other direction, Train refines the value-free protocol machine TrainProto (checked by TLC), and random protocols of 25 (40) steps - updates and resets omitted, reordered, resets before updates - recorded from real models of 1-3 layers with any activation are validated by TLC against TrainProto (Trace_Train.tla), every event with the logged (tracked, spent, hasGrad) of every parameter and the ok/error outcome." + KF),
  "C18": dict(level="exploration", design="DESIGN.md 3/C18 and 4", technique="TLA+ parameter table evaluated by TLC; exact shape / tracking / support checks + statistical conformance monitor (8-sigma)",
    note="The distributional half (moments converge, positions independent, draws fresh) is a statistical statement: it is monitored with 8-sigma bands on 6e4 (1e6) draws, a rejection must reproduce on a doubled sample; TLC decides the shape / tracked / support / parameter-formula half only. Trusted: gonum's generator quality.",
    text="TLC emits for every initializer / random constructor, configuration (nil configs = documented defaults) and shape the expected shape, tracking and distribution parameters as terms (sqrt(6/fanIn), sqrt(6/(fanIn+fanOut)), sqrt(2/fanIn), sqrt(2/(fanIn+fanOut)), bounds, mean, sigma); the harness checks shape, tracked-leaf-ness and support of every element exactly and mean, variance, support coverage / one-sigma mass, freshness across calls, autocorrelation and position correlation statistically."),
